@@ -212,6 +212,10 @@ int cmd_enumerate(const std::map<std::string, std::string>& a) {
   for (size_t p = 0; p < pfx.size();) { size_t e = pfx.find(',', p); if (e == std::string::npos) e = pfx.size(); prefix.push_back(atoi(pfx.substr(p, e - p).c_str())); p = e + 1; }
   const size_t forced = prefix.size();
   int64_t count = 0, violating = 0;
+  const bool symmetry = a.count("symmetry") != 0;
+  const size_t max_depth = a.count("max-depth") ? static_cast<size_t>(atoi(get("max-depth", "0").c_str())) : 0;  // >0: only branch in the first D free steps and list the prefixes
+  J prefixes = J::arr();
+  J first_masks, first_schedule;
   std::set<uint64_t> traces, signatures;
   Stats stats;
   J first_viol;
@@ -238,13 +242,43 @@ int cmd_enumerate(const std::map<std::string, std::string>& a) {
       }
     }
     if (o.poisoned || count >= limit) break;
-    // Next schedule in lexicographic order.
+    // Next schedule in lexicographic order.  With --symmetry (all tasks run the same script) a task that
+    // has not moved beyond its first step is interchangeable with any other such task, so only the
+    // lowest-numbered fresh task may be chosen: this removes the k! permutations of identical tasks.
     const std::vector<int>& S = o.schedule;
+    if (count == 1) {
+      J fm = J::arr();
+      for (size_t i = 0; i < o.runnable_mask.size() && i < forced + 12; ++i) fm.push(static_cast<int64_t>(o.runnable_mask[i]));
+      first_masks = fm;
+      first_schedule = J::arr();
+      for (size_t i = 0; i < S.size() && i < forced + 12; ++i) first_schedule.push(S[i]);
+    }
     bool advanced = false;
-    for (size_t i = S.size(); i-- > forced;) {
+    std::vector<int> seen(64, 0);
+    std::vector<uint64_t> fresh_at(S.size(), 0);   // tasks that have made only their START step before step i
+    for (size_t i = 0; i < S.size(); ++i) {
+      uint64_t f = 0;
+      for (int id = 0; id < k; ++id) if (seen[static_cast<size_t>(id)] == 1) f |= (1ULL << id);
+      fresh_at[i] = f;
+      seen[static_cast<size_t>(S[i])]++;
+    }
+    if (max_depth) {
+      J pj = J::arr();
+      for (size_t i = static_cast<size_t>(k); i < S.size() && i < forced + max_depth; ++i) pj.push(S[i]);
+      prefixes.push(pj);
+    }
+    for (size_t i = (max_depth ? std::min(S.size(), forced + max_depth) : S.size()); i-- > forced;) {
       uint64_t m = o.runnable_mask[i];
       int next = -1;
-      for (int id = S[i] + 1; id < 64; ++id) if (m & (1ULL << id)) { next = id; break; }
+      for (int id = S[i] + 1; id < 64; ++id) {
+        if (!(m & (1ULL << id))) continue;
+        if (symmetry && (fresh_at[i] & (1ULL << id))) {
+          // a fresh task is allowed only if no lower-numbered fresh task is runnable
+          uint64_t lower = fresh_at[i] & m & ((1ULL << id) - 1);
+          if (lower) continue;
+        }
+        next = id; break;
+      }
       if (next >= 0) { prefix.assign(S.begin(), S.begin() + static_cast<long>(i)); prefix.push_back(next); advanced = true; break; }
     }
     if (!advanced) break;
@@ -252,9 +286,11 @@ int cmd_enumerate(const std::map<std::string, std::string>& a) {
   J j = J::obj();
   j.set("enumerated", count); j.set("violating", violating); j.set("distinct_traces", static_cast<int64_t>(traces.size()));
   J tr = J::arr();
-  for (uint64_t t : traces) tr.push(hex64(t));
+  if (traces.size() <= 200000) for (uint64_t t : traces) tr.push(hex64(t));
   j.set("traces", tr);
   j.set("exhausted", count < limit);
+  if (max_depth) j.set("prefixes", prefixes);
+  j.set("first_masks", first_masks); j.set("first_schedule", first_schedule); j.set("forced", static_cast<int64_t>(forced));
   if (have_viol) j.set("first_violation", first_viol);
   J st = J::obj();
   for (auto& kv : stats.c) st.set(kv.first, kv.second);
